@@ -52,6 +52,16 @@ def handle (s : Sexp) : D String :=
       match Stop.ofString? (← decStr istop) with
       | some st => pure (toString (specCalls (← decInt imin) imax st rs))
       | none => pure "ERR istop"
+  | .list [.atom "placement", pos, l, t, ini] => do
+      let pname ← decStr pos
+      match Position.all.find? (fun p => (toString (repr p)).endsWith pname) with
+      | none => pure "ERR position"
+      | some p =>
+        let isInit ← decBool ini
+        let l ← decNat l
+        let t ← decNat t
+        let ok := if isInit then docAcceptsInit p else docAccepts p l t
+        pure (if ok then "ok" else "rej")
   | s => .error s!"unknown command: {s.toStr}"
 
 partial def loop (inp : IO.FS.Stream) (out : IO.FS.Stream) : IO Unit := do
